@@ -183,8 +183,17 @@ func (matrix *DenseInt8Matrix) SetIdentity() {
   }
 }
 func (matrix *DenseInt8Matrix) Reset() {
-  for i := 0; i < len(matrix.values); i++ {
-    matrix.values[i] = 0.0
+  if matrix.rows == matrix.rowMax && matrix.cols == matrix.colMax {
+    for i := 0; i < len(matrix.values); i++ {
+      matrix.values[i] = 0.0
+    }
+  } else {
+    // matrix is a slice of a larger matrix, reset only the elements of the slice
+    for i := 0; i < matrix.rows; i++ {
+      for j := 0; j < matrix.cols; j++ {
+        matrix.values[matrix.index(i, j)] = 0.0
+      }
+    }
   }
 }
 func (matrix *DenseInt8Matrix) Row(i int) Vector {
